@@ -278,6 +278,9 @@ def c11_oracle_compare(outdir, oracle):
 
 
 PLANS = {
+    "C19": dict(proofs=["Proofs.C19"], runs=[("c19", dict(quick=4000, thorough=100000))],
+                rule="(regex, multiset of (haystack,start) queries): sequential results vs 3 random orders on one thread vs 16 threads sharing &Regex and a clone, both executors; non-trivial = query has a match",
+                technique="Lean 4 proof (schedule-independence of per-thread executor state; generated type inventory has no interior mutability) + rustc Send/Sync assertion + thread stress"),
     "C09": dict(proofs=["Proofs.C09"], runs=[("c09", dict(quick=1500, thorough=40000))],
                 rule="(pattern from pool/generator, haystack, start, executor); non-trivial = at least one match",
                 technique="Lean 4 proof over the iterator model (parametric in the matcher) + correspondence on attempt tables"),
